@@ -4,6 +4,8 @@ import itertools
 import math
 
 PID = 'C20'
+# thread bodies (defined with engine E4, mc/checks/c10_sched.py) that exercise this property's code; explored after the parts below
+SCHED_SETS = [('lookup||lookup', 'call'), ('lookupsh||lookupsh', 'call')]
 LEVEL = 'model_checking'
 ENGINE = 'E1'
 TECHNIQUE = 'bounded exhaustive enumeration of all trajectories up to length n over a 4-value alphabet x all queries, each look-up compared with a sequential scan reference model'
